@@ -295,24 +295,56 @@ pub fn record_samples(output: &str) {
         sets.push((from, to));
     }
     for (n, (from, to)) in sets.into_iter().enumerate() {
-        // half of the constraint sets reach their limits through update_range (from other, unrelated limits)
-        let c = if n % 2 == 0 { Constraints::new(rad6(&from), rad6(&to), BY_PREV) } else {
-            let mut c = Constraints::new([2.0, -1.0, 0.5, 0.1, -3.0, 1.0], [2.5, 1.0, 0.6, -0.1, 3.0, 1.0], BY_PREV);
-            c.update_range(rad6(&from), rad6(&to));
-            c
-        };
-        for _ in 0..draws {
-            match guarded(|| c.random_angles()) {
-                Some(q) => {
-                    let acc = c.compliant(&q);
-                    out.put(json!({"ev": "sample", "from": from, "to": to, "a": au6(&q), "acc": acc, "outcome": "ok"}));
-                }
-                None => {
-                    out.put(json!({"ev": "sample", "from": from, "to": to, "a": [0,0,0,0,0,0], "acc": false, "outcome": "panic"}));
-                    break;
+        // the constraint sets reach their limits through all three ways: new, update_range (from other, unrelated
+        // limits) and from_degrees
+        let fd: [f64; 6] = std::array::from_fn(|i| from[i] as f64 / 1e4);
+        let td: [f64; 6] = std::array::from_fn(|i| to[i] as f64 / 1e4);
+        let mut fr = rad6(&from);
+        let mut tr = rad6(&to);
+        // (one set in nine has a joint whose arc is narrower than any angular resolution: 1e-11 .. 1e-7 rad; the same
+        //  AU values, so the model sees from = to and accepts whatever the library's own `compliant` accepts)
+        let tiny = n % 9 == 4;
+        if tiny { let j = n % 6; tr[j] = fr[j] + 10f64.powf(r.gen_range(-11.0..-7.0)); }
+        // (sets that are followed by a narrower sibling have their limits on a grid of 2^-24 rad, so that the centres of
+        //  both sets are the very same floating point numbers)
+        let with_sibling = n % 4 == 1 && !tiny;
+        let snap = |x: f64| (x * 16_777_216.0).round() / 16_777_216.0;
+        if with_sibling { for j in 0..6 { fr[j] = snap(fr[j]); tr[j] = snap(tr[j]); } }
+        let ctor = if tiny { "new" } else if with_sibling { CTORS[(n % 2) * 2] } else { CTORS[n % 3] };
+        let c = build(ctor, &fr, &tr, &fd, &td);
+        if ctor == "from_degrees" { fr = c.from; tr = c.to; }
+        let mut sample = |c: &Constraints, from: &[i64; 6], to: &[i64; 6], out: &mut Out| {
+            for _ in 0..draws {
+                match guarded(|| c.random_angles()) {
+                    Some(q) => {
+                        let acc = c.compliant(&q);
+                        out.put(json!({"ev": "sample", "from": from, "to": to, "a": au6(&q), "acc": acc, "outcome": "ok", "ctor": ctor, "tiny": tiny}));
+                    }
+                    None => {
+                        out.put(json!({"ev": "sample", "from": from, "to": to, "a": [0,0,0,0,0,0], "acc": false, "outcome": "panic", "ctor": ctor, "tiny": tiny}));
+                        break;
+                    }
                 }
             }
+        };
+        sample(&c, &from, &to, &mut out);
+        // right afterwards, on the same thread: a second set with the same centres and arcs of a third of the width
+        if with_sibling {
+            let mut f2 = fr;
+            let mut t2 = tr;
+            for j in 0..6 {
+                let len = arc_len(from[j], to[j]);
+                if from[j] != to[j] && len < N_AU && len >= 600 {
+                    let w = snap(au2rad(len / 3));
+                    f2[j] = fr[j] + w;
+                    t2[j] = tr[j] - w;
+                }
+            }
+            let c2 = Constraints::new(f2, t2, BY_PREV);
+            let (f2a, t2a): ([i64; 6], [i64; 6]) = (std::array::from_fn(|j| rad2au(f2[j])), std::array::from_fn(|j| rad2au(t2[j])));
+            sample(&c2, &f2a, &t2a, &mut out);
         }
+        let _ = (&fr, &tr);
     }
     out.finish();
 }
